@@ -79,6 +79,12 @@ def main():
         print('EXTRACTION-FAILURE property=%s: %s' % (prop, ex))
         write_evidence(mod, run, status='extraction-failure: %s' % ex)
         return 2
+    except Exception as ex:
+        # an internal error of the machinery is never a verdict about the code
+        print('EXTRACTION-FAILURE property=%s: internal error %r\n%s' % (prop, ex, traceback.format_exc()[-1500:]))
+        try: write_evidence(mod, run, status='internal error: %r' % (ex,))
+        except Exception: pass
+        return 2
 
 
 def check(mod, run, a):
